@@ -557,6 +557,10 @@ class ParsersWorld:
             if ro.random() < 0.4:
                 runs.append(workload.pick_run_kwargs(ro, self.modes, it["run"]))
             task = {"tid": t, "ddl": it["ddl"], "flags": flags, "runs": runs, "src": it["src"]}
+            if ro.random() < 0.12:
+                # this thread goes through the file entry point: parse_from_file(path, parser_settings=flags, **kw)
+                task["via_file"] = True
+                task["runs"] = runs[:1]
             if ro.random() < 0.2:
                 # a second object built and run later in the same thread
                 c2 = ro.random()
@@ -666,6 +670,23 @@ class ParsersWorld:
                 # a task owns one parser object, optionally followed by further objects built and run in the
                 # same thread ("then"): object index oi, run index j (-1 = the constructor raised)
                 p = None
+                if spec.get("via_file") and i in via_paths:
+                    S.yield_point("between")
+                    S.yield_point("run_entry")
+                    running["n"] += 1
+                    try:
+                        r = self.parse_from_file(via_paths[i], parser_settings=dict(spec["flags"]), **spec["runs"][0])
+                        out = ["ok", core.canon(r)]
+                    except sched.SimCancel:
+                        out = ["cancelled"]
+                    except Exception as e:  # noqa
+                        out = core.outcome_of_exception(e)
+                    finally:
+                        running["n"] -= 1
+                    S.yield_point("run_exit")
+                    outcomes.append((i, 0, 0, out))
+                    log.add("ret", task=i, obj=0, run=0, outcome=out, via_file=True)
+                    return
                 for oi, ospec in enumerate([spec] + list(spec.get("then") or [])):
                     if oi:
                         p = None            # the thread drops its previous object before it builds the next one
@@ -702,6 +723,16 @@ class ParsersWorld:
                         log.add("ret", task=i, obj=oi, run=j, outcome=out)
             return body
 
+        via_paths = {}
+        for n_, spec in enumerate(trace["tasks"]):
+            if spec.get("via_file"):
+                try:
+                    pth = os.path.join(cwd, "in%d.sql" % n_)
+                    with open(pth, "w", encoding="utf-8") as fh:
+                        fh.write(spec["ddl"])
+                    via_paths[spec.get("tid", n_)] = pth
+                except UnicodeError:
+                    pass            # not writable as a utf-8 text file: this task uses the plain API
         seams.HOOKS.point = point
         blocked = None
         try:
@@ -748,6 +779,8 @@ class ParsersWorld:
             # process - so a defect of repeated use of one object (C14) is not reported as interference
             hist = self.ref.history(spec["ddl"], spec["flags"], spec["runs"][:j + 1])
             expected = hist[j] if (hist and hist[0] != "ctor-exc") else hist
+            if by_tid[i].get("via_file") and i in via_paths and expected and expected[0] == "ctor-exc":
+                expected = ["exc"] + list(expected[1:])      # through parse_from_file a constructor error is just an error
             st["stats"]["refs"] += 1
             if out != expected:
                 st["violations"].append({"oracle": "isolation", "task": i, "obj": oi, "run": j,
@@ -756,6 +789,7 @@ class ParsersWorld:
         st["stats"].update({"switches": S.switches, "label_points": S.label_points, "line_points": S.line_points, "lock_waits": S.lock_waits,
                             "marathon_runs": 1 if swarm.get("marathon") else 0, "gran_" + gran: 1,
                             "same_text_tasks": sum(1 for t in trace["tasks"] if (t.get("src") or "").endswith("+same")),
+                            "via_file_tasks": sum(1 for t in trace["tasks"] if t.get("via_file")),
                             "followup_tasks": sum(1 for t in trace["tasks"] if (t.get("src") or "").startswith("gen:followup"))})
         if gran == "L":
             st["stats"]["focus_" + str(swarm.get("focus"))] = 1
@@ -778,6 +812,7 @@ class ParsersWorld:
         for t in tasks:
             t.pop("cancel", None)
             t.pop("then", None)
+            t.pop("via_file", None)
             want = 2 if k == 2 else 1
             while len(t["runs"]) < want:
                 t["runs"].append(dict(t["runs"][0]))
